@@ -50,6 +50,7 @@ LEVEL["decided"] += " (R02.6) every raise of the empty-input error has the built
 LEVEL["decided"] += ' (R02.11) nlargest / nsmallest take their first n items through a borrowed view that cannot close the source (R07.4, shared).'
 LEVEL["decided"] += " (R02.12) the user's key is never handed to list.sort / sorted / min / max of the standard library (R03.14, shared)."
 LEVEL["decided"] += " (R02.13) a key / reduction function is used whatever its truth value (R03.12, shared); R02.3 (no in-place operation on the caller's objects), R02.5 and R02.6 read the inlined views, so a private collecting / folding step is seen through."
+LEVEL["decided"] += ' (R02.14) the iterable is never asked for len() nor type-tested against synchronous containers (R03.2, shared); R02.4 reads the statements of _largest where they have the shape it knows and otherwise notes that the tables of nlargest / nsmallest decide.'
 
 AGGREGATIONS = ["builtins.all", "builtins.any", "builtins.sum", "builtins.min", "builtins.max", "builtins._min_max",
                 "builtins.list", "builtins.tuple", "builtins.set", "builtins.dict", "builtins.sorted",
